@@ -1,6 +1,7 @@
 import GrVerif.Proofs.Loader
 import GrVerif.Proofs.PassLoad
 import GrVerif.Proofs.LoadedPass
+import GrVerif.Proofs.ClassMap
 import GrVerif.Props.C13
 import GrVerif.Props.C14
 /-!
@@ -16,6 +17,8 @@ reject – without a single read or write outside the bytes it was given"):
   range records, rule map, start states, sort keys, pre-context lengths, code offset arrays, transition table and the three code
   blocks inside the pass (`LayoutOK`), which is what `readRanges`, `readRules`, `readStates` and the code loader start from
   (`ranges_after_layout`); error codes and the header size are regenerated from `Error.h` / `Pass.cpp` (`Gen/Err.lean`);
+* `Silf::readClassMap` and the two class look-ups of the run time (`Model/ClassMap.lean`): `class_map_total`,
+  `class_lookups_in_bounds`;
 * `Pass::readStates` and the rule map of `Pass::readRules`: `pass_states_total`, `pass_rulemap_total`; together with
   `pass_ranges_total` they give the pass-engine model's `TablesWF` (`accepted_pass_has_wellformed_tables`), the hypothesis
   under which the matcher provably never indexes outside a table (`C02.matcher_stays_inside_its_tables`);
@@ -77,7 +80,30 @@ theorem accepted_pass_has_wellformed_tables (b : List Nat) (L : PassLayout) (hL 
     (hc : ColsOK L.hdr.numColumns cols) (T : PassTables) (hT : TablesOK L T) (es : List Nat) (rules : Array Pass.Rule) :
     Pass.TablesWF (toPassT L cols T es rules) := loaded_tables_wf b L hL cols hc T hT es rules
 
+/-- **`Silf::readClassMap`** for every byte string and both offset widths: no read outside the map, and an accepted map has the
+shape the look-ups rely on (`ClassMapOK`: offsets inside the class data, linear classes in order, every look-up class with a
+header, at least one pair and all its pairs inside the data).  (The pinned tree computed the size of the offsets array in 16 bits
+and read past the end of the map for 32 765 classes or more: `fix: Silf::readClassOffsets …`.) -/
+theorem class_map_total (b : List Nat) (wide : Bool) : ∃ r, readClassMap b wide = .ok r ∧ ∀ m, r = .ok m → ClassMapOK m :=
+  readClassMap_total b wide
+
+/-- **the two look-ups on an accepted class map** (`Silf::getClassGlyph`, `Silf::findClassIndex` with its binary search), for
+every class number the code loader lets through and every glyph / index: all accesses to `m_classOffsets` and `m_classData`
+are inside the arrays -/
+theorem class_lookups_in_bounds (m : ClassMap) (h : ClassMapOK m) (cid x : Nat) (hc : cid < m.nClass) :
+    (∃ v, getClassGlyph m cid x = .ok v) ∧ (∃ v, findClassIndex m cid x = .ok v) :=
+  ⟨getClassGlyph_in_bounds m h cid x hc, findClassIndex_in_bounds m h cid x hc⟩
+
+/-- the class number the look-ups do NOT guard is `numClasses` itself (`if (cid > m_nClass) return …`): there the model reads
+outside `m_classOffsets` – which is why the code loader has to refuse it (`valid_upto(m_nClass, cid)`; seeded change C02-m1) -/
+example : getClassGlyph { nClass := 1, nLinear := 1, offsets := [0, 1], data := [7] } 1 0 = .error (.read "m_classOffsets") := by decide
+
 /-! ### non-vacuity -/
+/-- a class map with one linear class {5, 9} and one look-up class {3 ↦ 0, 8 ↦ 1} (16-bit offsets) -/
+def exMap : List Nat := [0, 2, 0, 1, 0, 10, 0, 14, 0, 30, 0, 5, 0, 9, 0, 2, 0, 2, 0, 1, 0, 0, 0, 3, 0, 0, 0, 8, 0, 1]
+example : (match readClassMap exMap false with | .ok (.ok m) => (m.nClass, m.nLinear, m.offsets, getClassGlyph m 0 1, findClassIndex m 1 8, findClassIndex m 1 4) | _ => (0, 0, [], .ok 0, .ok 0, .ok 0)) =
+    (2, 1, [0, 2, 10], .ok 9, .ok 1, .ok 0xFFFF) := by decide +kernel
+
 /-- the second pass of `tests/fonts/small.ttf` (119 bytes at offset 215 of its Silf sub-table) is accepted -/
 def smallPass : List Nat := [0, 5, 2, 0, 0, 1, 0, 0, 0, 0, 1, 44, 0, 0, 1, 44, 0, 0, 1, 45, 0, 0, 0, 0, 0, 3, 0, 2, 0, 1, 0, 2, 0, 2, 0, 2, 0, 1, 0, 0, 0, 3, 0, 3, 0, 0, 0, 5, 0, 5, 0, 1, 0, 0, 0, 1, 0, 0, 0, 0, 0, 0, 0, 2, 0, 10, 0, 0, 0, 0, 0, 1, 0, 0, 0, 33, 0, 1, 0, 0, 0, 0, 0, 2, 0, 0, 27, 30, 0, 1, 255, 38, 2, 1, 0, 35, 17, 41, 6, 0, 35, 8, 41, 7, 0, 35, 9, 44, 6, 0, 35, 3, 44, 7, 0, 35, 4, 25, 49]
 example : (match readPassLayout smallPass 215 false with | .ok (.ok L) => (L.hdr.numRules, L.hdr.numStates, L.arr.numGlyphs, L.codes.endp) | _ => (0, 0, 0, 0)) = (1, 3, 6, 119) := by decide +kernel
